@@ -112,6 +112,31 @@ func setups() []setup {
 		s.MessageFlows = [][2]string{{"th1", "ws"}, {"th2", "cw"}}
 		out = append(out, setup{name: "throw-wakes-catch-in-instantiated", set: s, tasks: 3, after: map[string][]string{"t1b": {"t1"}, "tw": {"t1b"}}})
 	}
+	// two throws of one process target the same catch event: the first wakes it, the second
+	// finds it no longer listening and changes nothing
+	{
+		s := &drv.Set{ID: "samecatch", Waiting: map[string]bool{}}
+		p1 := drv.NewGraph("p1")
+		chain(p1, "s:s1", "t:t1", "th:th1", "t:t1b", "th:th2", "t:t1c", "e:e1")
+		p2 := drv.NewGraph("p2")
+		chain(p2, "s:s2", "c:c2", "t:t2", "e:e2")
+		s.Procs = []*drv.Graph{p1, p2}
+		s.MessageFlows = [][2]string{{"th1", "c2"}, {"th2", "c2"}}
+		out = append(out, setup{name: "two-throws-one-catch", set: s, tasks: 4, after: map[string][]string{"t2": {"t1"}, "t1c": {"t1b"}}})
+	}
+	// the same with the throws in two different processes
+	{
+		s := &drv.Set{ID: "samecatch2", Waiting: map[string]bool{}}
+		p1 := drv.NewGraph("p1")
+		chain(p1, "s:s1", "t:t1", "th:th1", "e:e1")
+		p3 := drv.NewGraph("p3")
+		chain(p3, "s:s3", "t:t3", "th:th3", "t:t3b", "e:e3")
+		p2 := drv.NewGraph("p2")
+		chain(p2, "s:s2", "c:c2", "t:t2", "e:e2")
+		s.Procs = []*drv.Graph{p1, p3, p2}
+		s.MessageFlows = [][2]string{{"th1", "c2"}, {"th3", "c2"}}
+		out = append(out, setup{name: "two-processes-throw-to-one-catch", set: s, tasks: 4})
+	}
 	// two throws, two targets
 	{
 		s := &drv.Set{ID: "two", Waiting: map[string]bool{"w1": true}}
@@ -286,6 +311,9 @@ func init() {
 				}
 				for _, d := range bounds {
 					if d >= 1 && si >= 4 && !thorough {
+						continue
+					}
+					if d >= 1 && si >= 1 && !thorough && strings.HasPrefix(su.name, "two-processes-throw") {
 						continue
 					}
 					s := &h.Scn{Name: fmt.Sprintf("C18/%s/waits%v/d%d", su.name, []int(sc), d), Body: body(su, defs, sc), Opts: verifrt.Options{Bound: d, UseCache: true}}
